@@ -280,3 +280,29 @@ func init() {
 	addControl(control{Prop: "C17", Name: "lookahead-via-local-copy", Rule: "R17a", Kind: "refactor", Quick: true,
 		File: "parse/parse.go", Old: "		next := p.input[0]\n		p.input = p.input[1:]\n\n		switch next {\n		case '}':", New: "		rest := p.input\n		next := rest[0]\n		p.input = rest[1:]\n\n		switch next {\n		case '}':"})
 }
+
+func init() {
+	// ---------------- C15 ----------------
+	addControl(control{Prop: "C15", Name: "setcontext-ineffective-again", Rule: "R15d", Kind: "mutant", Quick: true,
+		File: "types.go", Old: "func (c cfgSub) SetContext(ctx context) {\n	c.c.ctx = ctx\n}", New: "func (c cfgSub) SetContext(ctx context) {\n	if c.c.ctx.empty() {\n		c.c.ctx = ctx\n	} else {\n		c.c = &Config{ctx: ctx, fields: c.c.fields}\n	}\n}", Expect: "R15d/(ucfg.cfgSub).SetContext"})
+	addControl(control{Prop: "C15", Name: "delat-without-renumbering", Rule: "R15b", Kind: "mutant", Quick: true,
+		File: "ucfg.go", Old: "	for j := i; j < len(f.a); j++ {\n		if v := f.a[j]; v != nil {\n			ctx := v.Context()\n			ctx.field = fmt.Sprintf(\"%d\", j)\n			v.SetContext(ctx)\n		}\n	}\n", New: "", Expect: "R15b/(*ucfg.fields).delAt"})
+	addControl(control{Prop: "C15", Name: "renumbering-off-by-one", Rule: "R15b", Kind: "mutant",
+		File: "ucfg.go", Old: "			ctx.field = fmt.Sprintf(\"%d\", j)\n			v.SetContext(ctx)", New: "			ctx.field = fmt.Sprintf(\"%d\", j+1)\n			v.SetContext(ctx)", Expect: "R15b/(*ucfg.fields).delAt"})
+	addControl(control{Prop: "C15", Name: "merged-element-named-after-length", Rule: "R15a", Kind: "mutant",
+		File: "merge.go", Old: "			parent: parent,\n			field:  fmt.Sprintf(\"%v\", i),\n		}\n\n		// possible for individual index to be replaced", New: "			parent: parent,\n			field:  fmt.Sprintf(\"%v\", l),\n		}\n\n		// possible for individual index to be replaced", Expect: "R15a/ucfg.mergeConfigMergeArr/fields.setAt field"})
+	addControl(control{Prop: "C15", Name: "named-set-without-setcontext", Rule: "R15a", Kind: "mutant",
+		File: "path.go", Old: "	sub.c.fields.set(n.name, v)\n	v.SetContext(context{parent: elem, field: n.name})", New: "	sub.c.fields.set(n.name, v)", Expect: "R15a/(ucfg.namedField).SetValue"})
+	addControl(control{Prop: "C15", Name: "appended-elements-numbered-from-zero", Rule: "R15a", Kind: "mutant",
+		File: "ucfg.go", Old: "			field:  fmt.Sprintf(\"%v\", l),\n		}\n		f.setAt(l, parent, a[i].cpy(ctx))", New: "			field:  fmt.Sprintf(\"%v\", i),\n		}\n		f.setAt(l, parent, a[i].cpy(ctx))", Expect: "R15a/(*ucfg.fields).append/fields.setAt field"})
+	addControl(control{Prop: "C15", Name: "copy-keeps-old-parent", Rule: "R15a", Kind: "mutant",
+		File: "types.go", Old: "		v := f.cpy(context{field: ctx.field, parent: newC})\n		fields.set(name, v)", New: "		v := f.cpy(context{field: ctx.field, parent: ctx.parent})\n		fields.set(name, v)", Expect: "R15a/(ucfg.cfgSub).cpy/fields.set parent"})
+	addControl(control{Prop: "C15", Name: "dict-merge-parent-is-source", Rule: "R15a", Kind: "mutant",
+		File: "merge.go", Old: "		ctx := context{\n			parent: cfgSub{to},\n			field:  k,\n		}", New: "		ctx := context{\n			parent: cfgSub{from},\n			field:  k,\n		}", Expect: "R15a/ucfg.mergeConfigDict/fields.set parent"})
+	addControl(control{Prop: "C15", Name: "normalized-list-skips-nil-elements", Rule: "R15a", Kind: "mutant",
+		File: "merge.go", Old: "		tmp, err := normalizeValue(opts, tagOpts, ctx, v.Index(i))\n		if err != nil {\n			return nil, err\n		}\n		out = append(out, tmp)", New: "		tmp, err := normalizeValue(opts, tagOpts, ctx, v.Index(i))\n		if err != nil {\n			return nil, err\n		}\n		if isNil(tmp) && i > 0 {\n			continue\n		}\n		out = append(out, tmp)", Expect: "R15a/ucfg.normalizeArray/store fields.a"})
+	addControl(control{Prop: "C15", Name: "parent-skips-a-level", Rule: "R15e", Kind: "mutant",
+		File: "ucfg.go", Old: "		switch p := ctx.parent.(type) {\n		case cfgSub:\n			return p.c", New: "		switch p := ctx.parent.(type) {\n		case cfgSub:\n			if p.c.ctx.parent != nil && p.c.fields.array() != nil {\n				return p.c.Parent()\n			}\n			return p.c", Expect: "R15e/(*ucfg.Config).Parent"})
+	addControl(control{Prop: "C15", Name: "renumber-with-named-context-literal", Rule: "R15b", Kind: "refactor", Quick: true,
+		File: "ucfg.go", Old: "			ctx := v.Context()\n			ctx.field = fmt.Sprintf(\"%d\", j)\n			v.SetContext(ctx)", New: "			moved := v.Context()\n			moved.field = fmt.Sprintf(\"%v\", j)\n			v.SetContext(moved)"})
+}
